@@ -190,6 +190,68 @@ def printFull {F : Type} : Expr F → List (Tok F)
   | .float f => [.float f]
   | .ident s => [.ident s]
 
+
+/-! ## Character level: the canonical spelling of a token list
+
+Operators are spelled as in the standard; each occurrence of `&`, `<`, `>` may be written as
+the XML escape `&amp;`, `&lt;`, `&gt;` (choice function `esc`, by position inside the token);
+identifiers by their text; integers in decimal.  Every token is followed by a non-empty gap of
+white space (blank, tab, CR, LF and the other ASCII control characters), the text may start
+with one.  Float tokens have no canonical text and are not spelled here. -/
+
+def symChars : Sym → List Char
+  | .lparen => ['('] | .rparen => [')'] | .plus => ['+'] | .minus => ['-'] | .star => ['*']
+  | .doubleStar => ['*', '*'] | .slash => ['/'] | .percent => ['%'] | .and => ['&']
+  | .doubleAnd => ['&', '&'] | .or => ['|'] | .doubleOr => ['|', '|'] | .caret => ['^']
+  | .tilde => ['~'] | .eq => ['='] | .ne => ['<', '>'] | .colon => [':'] | .question => ['?']
+  | .lt => ['<'] | .le => ['<', '='] | .gt => ['>'] | .ge => ['>', '='] | .shl => ['<', '<']
+  | .shr => ['>', '>']
+
+/-- one character, XML-escaped when `b` says so (only `&`, `<`, `>` have an escape) -/
+def escChar (b : Bool) (c : Char) : List Char :=
+  if b then
+    (if c = '&' then ['&', 'a', 'm', 'p', ';'] else if c = '<' then ['&', 'l', 't', ';']
+     else if c = '>' then ['&', 'g', 't', ';'] else [c])
+  else [c]
+
+def escape (f : Nat → Bool) : Nat → List Char → List Char
+  | _, [] => []
+  | i, c :: cs => escChar (f i) c ++ escape f (i + 1) cs
+
+def digitChar (d : Nat) : Char := Char.ofNat (48 + d)
+
+/-- decimal digits, least significant first (`fuel` > number of digits) -/
+def decRev : Nat → Nat → List Char
+  | 0, _ => []
+  | fuel + 1, n => if n < 10 then [digitChar n] else digitChar (n % 10) :: decRev fuel (n / 10)
+
+def decDigits (n : Nat) : List Char := (decRev (n + 1) n).reverse
+
+/-- a token with the escape choice for its characters and the white space that follows it -/
+structure Piece (F : Type) where
+  tok : Tok F
+  esc : Nat → Bool
+  gap : List Char
+
+def tokChars {F : Type} : Tok F → (Nat → Bool) → List Char
+  | .sym s, f => escape f 0 (symChars s)
+  | .ident s, _ => s.toList
+  | .int i, _ => decDigits i.toNat
+  | _, _ => []
+
+/-- tokens that have a spelling: operators, identifiers (a letter, then letters, digits, `.`,
+`_`), integers up to `i64::MAX` -/
+def Spellable {F : Type} : Tok F → Prop
+  | .sym _ => True
+  | .ident s => ∃ c cs, s.toList = c :: cs ∧ isAlpha c = true ∧ cs.all isIdentCont = true
+  | .int i => i.toNat ≤ I64_MAX
+  | _ => False
+
+def GoodGap (g : List Char) : Prop := g ≠ [] ∧ g.all isSpace = true
+
+def printChars {F : Type} (lead : List Char) (ps : List (Piece F)) : List Char :=
+  lead ++ ps.flatMap (fun p => tokChars p.tok p.esc ++ p.gap)
+
 /-! ## Reference evaluator -/
 
 inductive SVal (F : Type) where
@@ -338,6 +400,54 @@ def eval (env : SEnv F) : Expr F → Except SErr (SVal F)
     match env s with
     | some v => pure v
     | none => throw .unknownIdent
+
+
+/-! ## Environments of sub-expressions: reference by substitution
+
+The reference meaning of a formula evaluated with `<Expression>` bindings is the meaning of the
+formula in which every bound name is replaced by its (recursively expanded) expression; names
+that are not bound stay identifiers (and are unknown identifiers of the reference evaluator).
+`expand` performs that replacement; it yields `none` exactly when the expansion meets a name
+inside its own expansion (a cyclic binding) or — for an environment given as a function —
+exceeds `fuel` nested expansions. -/
+
+def expand {F : Type} (env : EnvX F) : List String → Nat → Expr F → Option (Expr F)
+  | vis, fuel, .binOp k l r => do
+    let l' ← expand env vis fuel l
+    let r' ← expand env vis fuel r
+    pure (.binOp k l' r')
+  | vis, fuel, .unOp k x => do
+    let x' ← expand env vis fuel x
+    pure (.unOp k x')
+  | vis, fuel, .ite c t e => do
+    let c' ← expand env vis fuel c
+    let t' ← expand env vis fuel t
+    let e' ← expand env vis fuel e
+    pure (.ite c' t' e')
+  | _, _, .int i => some (.int i)
+  | _, _, .float f => some (.float f)
+  | vis, fuel, .ident s =>
+    if vis.contains s then none
+    else
+      match env s with
+      | none => some (.ident s)
+      | some b =>
+        match fuel with
+        | 0 => none
+        | fuel + 1 => expand env (s :: vis) fuel b
+termination_by _ fuel e => (fuel, sizeOf e)
+
+/-- Environment given by a list of bindings (first match wins, as the `HashMap` has one entry per name). -/
+def envOfList {F : Type} (bs : List (String × Expr F)) : EnvX F := fun s =>
+  match bs.find? (fun b => b.1 = s) with
+  | some b => some b.2
+  | none => none
+
+/-- **Acyclicity** of the bindings `bs` as far as the formula `e` can reach them: the full
+expansion of `e` exists.  Decidable (a `Bool`); with `n` bindings a chain of distinct names has
+at most `n` links, so fuel `n + 1` is never the reason for `false`. -/
+def acyclicFor {F : Type} (bs : List (String × Expr F)) (e : Expr F) : Bool :=
+  (expand (envOfList bs) [] (bs.length + 1) e).isSome
 
 /-! ## Embedding of model values -/
 
